@@ -58,7 +58,22 @@ class LifecycleMonitor(Monitor):
         self.msgs = {}       # serial -> list of payloads
         self.delivered_probes = set()
         self.tag_delivered = set()
+        self.cr_replace = []     # armed: inner types that replace client 1's next challenge response
+        self.cr_replaced = False
         self.objs = {}
+
+    def on_send(self, w, d):
+        if self.cr_replace and not self.cr_replaced and d.src == "c1" and len(d.data) >= 20 and d.data[12] == T.CHALLENGE_RESP.value:
+            conn = w.clients[1].conn
+            if conn is None or not conn.session_key_bytes:
+                return
+            self.cr_replaced = True
+            seq = struct.unpack(">H", d.data[8:10])[0]
+            msgs = []
+            for j, t in enumerate(self.cr_replace[0]):
+                body = b"tag:1:%d:99:evil" % w.clients[1].session if t == T.APP else (b"\x00\x0f" if t in (T.CLIENT_HELLO, T.CHALLENGE_RESP) else b"")
+                msgs.append((j + 1, t.value, body))
+            d.data = sealed(conn.session_key_bytes, True, int(w.vt.now), seq, 0, T.CHALLENGE_RESP.value, msgs)
 
     def state_tuple(self):
         return tuple(sorted(self.state.items()))
@@ -195,6 +210,12 @@ def menu(w, mon, ts, tick):
                 conn.seq_message = type(conn.seq_message)(mseq)
                 w.inject("s", sealed(conn.session_key_bytes, True, int(w.vt.now), seq, 0, types[0].value, msgs), client_addr=a1)
             out.append(("authenticated client 1 sends inner types %s" % "/".join(str(t.value) for t in types), act))
+    # a peer that holds the session key (its hello was answered) but never proves it: its challenge response is replaced,
+    # at the moment it is emitted, by a sealed bundle typed CHALLENGE_RESP that carries other messages
+    if tick <= 3 and not mon.cr_replace and w.clients[1].addr not in w.ctxt.connections:
+        for types in ([T.APP, T.APP], [T.KEEP_ALIVE, T.APP], [T.DISCONNECT, T.APP], [T.APP, T.CLIENT_HELLO]):
+            out.append(("half-open client 1 sends inner types %s under a CHALLENGE_RESP header instead of its challenge response" % "/".join(str(t.value) for t in types),
+                        lambda types=types: mon.cr_replace.append(types)))
     for ev in EVENTS:
         out.append(("handler raises in the next %s" % ev, lambda ev=ev: w.handler.raise_in.add(ev)))
     for ev in ("handle_message", "update"):
@@ -288,6 +309,9 @@ def scenario(params, ch):
             if t == shutdown_at:
                 w.ctxt.shutdown()
             w.tick()
+            if mon.cr_replaced and w.clients[1].client is not None and w.clients[1].client.conn is not None and not getattr(mon, "c1_stopped", False):
+                mon.c1_stopped = True
+                w.clients[1].client.forceDisconnect()      # the rogue peer never completes the handshake
             if w.baton.dead:
                 break
         ch.steps = w.tickno
@@ -331,7 +355,7 @@ def run(tier, seed):
         ticks = (0, 1, 2, 3, 4, 5, 6, 7, 9, 11, 13, 15, 17, 18, 20, 24, 26, 31, 33)
         plist = [(ticks, "cs"), (ticks, "sc")]
         bound = 2
-    st = explore.explore_all("checks.c10", "scenario", plist, bound, time_budget=(240 if tier == "quick" else 2400))
+    st = explore.explore_all("checks.c10", "scenario", plist, bound, time_budget=(1200 if tier == "quick" else 4800))
     if tier == "thorough":
         # every tick position with a single deviation (complete), in both endpoint orders
         allticks = tuple(range(0, 40))
